@@ -52,7 +52,7 @@ def run(ctx):
         check_guarded(ctx, f"{short}|fractional-part-digits-only", b, frac, [G_custom(digits_only_guard, "fractional component consists of ASCII digits only")],
                       "big-integer parse of the fractional component")
         # >2 components rejected; empty components rejected
-        vs = {v.rsplit("::", 1)[1] for x in ctx.bodies_of(n) for v in x.fn.vars if "ParseDecimalError::" in v or "ParsePreciseDecimalError::" in v}
+        vs = {v.rsplit("::", 1)[-1] for x in ctx.bodies_of(n) for v in x.fn.vars if "ParseDecimalError::" in v or "ParsePreciseDecimalError::" in v}
         need = {"MoreThanOneDecimalPoint", "EmptyIntegralPart", "EmptyFractionalPart", "InvalidDigit", "Overflow"}
         ctx.ob(f"{short}|rejections-live", need <= vs, f"parse errors constructed: {sorted(vs)}", b.loc())
         # scale derived from the fractional component's length
